@@ -75,6 +75,31 @@ Theorem C12_copy : forall st m t bs st' m' c o n,
   (forall c' o', ~ (c' = c /\ o <= o' < o + n) -> m' c' o' = m c' o').
 Proof. exact copy_seq_spec. Qed.
 
+(* Single goroutine: the no-carry regime is automatic (chunks are at most 2 GiB, the offset at most 2 GiB + 1 GiB), and
+   after Reset, replaying the same requests returns the same ranges and leaves the allocator in exactly the state it
+   had: `chunks` is unchanged, no memory is acquired.  SeqQ = "between calls" (goroutine back, mutex free); it holds
+   of a new allocator and is kept by Reset, TrimTo and every list of calls none of which hits the 64-chunk limit, so the
+   theorem covers every Reset/TrimTo history.  `good` excludes the 64-chunk panic (it leaves the mutex locked). *)
+Theorem C12_seq_replay : forall st szs st1 outs,
+  SeqQ st -> alloc_list (a_reset st) 0 szs = (st1, outs) -> Forall good outs ->
+  alloc_list (a_reset st1) 0 szs = (st1, outs) /\ SeqQ st1.
+Proof. exact seq_replay. Qed.
+
+Theorem C12_seq_histories :
+  (forall sz, sz <= max_alloc -> SeqQ (alloc_new 1 sz)) /\
+  (forall st, SeqQ st -> SeqQ (a_reset st)) /\
+  (forall st max, SeqQ st -> SeqQ (a_trim_to st max)) /\
+  (forall st szs st' outs, SeqQ st -> alloc_list st 0 szs = (st', outs) -> Forall good outs -> SeqQ st').
+Proof.
+  split; [exact seqq_new|]. split; [exact seqq_reset|]. split; [exact seqq_trim|].
+  intros st szs st' outs HQ H Hg. exact (proj1 (alloc_list_future szs st st' outs HQ H Hg)).
+Qed.
+
+(* ... and every state between calls satisfies the invariant behind C12_disjoint *)
+Theorem C12_seq_disjoint : forall st, SeqQ st ->
+  ForallOrdPairs gdisj (handed st) /\ Forall (in_chunk st) (handed st).
+Proof. exact seqq_disjoint. Qed.
+
 (* TrimTo + Reset: allocation proceeds.  addBufferAt terminates for every content of the 64 slots (in particular when
    the previous slot was released) and every request up to MaxAlloc; C12_disjoint covers every Reset/TrimTo history.
    The loop of the code before commit 4454866 does not terminate, whatever the fuel, when the previous slot is empty. *)
